@@ -7,7 +7,8 @@
    `wf`, `inside`, `mirror`), Proofs/C12Partition.v (`chain_b`, `intervals`, `grid_slices`,
    `grid_parts`, `bad_list`, `stack`). *)
 From Coq Require Import List ZArith NArith Bool Arith Sorted.
-From EasyML Require Import Base.Sx Model.Shape Model.MatrixViews Proofs.C12P Proofs.C12Partition.
+From EasyML Require Import Base.Sx Model.Shape Model.MatrixViews Proofs.C12P Proofs.C12Partition Proofs.C12Tensor.
+From EasyML Require Model.Views Proofs.C02P Proofs.C02Inj.
 Import ListNotations.
 Open Scope N_scope.
 
@@ -22,6 +23,19 @@ Theorem C12_contract : forall rows cols v, 1 <= rows -> stack rows cols v -> for
   then exists p, try_get v row column = Cell p /\ p < rows * cols
   else try_get v row column = Absent.
 Proof. exact stack_contract. Qed.
+
+(* the same contract when the bottom of the stack is MatrixRefTensor::from(t) for ANY constructed
+   2-dimensional tensor view t of the C02 development (tensor ranges, masks, indexing, expansion,
+   renaming, reversal, access, transposition, stacks and chains over Tensor / TensorRefMatrix
+   leaves): the root is the concatenation of the leaves' stores.  `usize_view`: the lengths of
+   mask sources are usize values; the leaves are pairwise distinct objects. *)
+Theorem C12_contract_over_tensor_views : forall v c s, Views.v_ctor v = Ok c -> C02P.usize_view c ->
+  length (Views.c_shape c) = 2%nat -> NoDup (C02Inj.leaf_ids c) -> tstack c s ->
+  forall row column,
+  if inside s row column
+  then exists p, try_get s row column = Cell p /\ p < N.of_nat (length (tensor_root c))
+  else try_get s row column = Absent.
+Proof. exact tstack_contract. Qed.
 
 Theorem C12_present_iff_inside : forall len v, wf len v -> forall row column,
   (exists p, try_get v row column = Cell p) <-> (row < view_rows v /\ column < view_cols v).
@@ -164,6 +178,7 @@ Proof.
 Qed.
 
 Print Assumptions C12_contract.
+Print Assumptions C12_contract_over_tensor_views.
 Print Assumptions C12_present_iff_inside.
 Print Assumptions C12_range.
 Print Assumptions C12_reverse.
